@@ -10,6 +10,7 @@ pub mod c05;
 pub mod c07;
 pub mod c10;
 pub mod c13;
+pub mod c15;
 pub mod c16;
 pub mod c18;
 
@@ -28,6 +29,7 @@ pub fn run(ctx: &Ctx) -> bool {
         "C07" => c07::run(ctx),
         "C10" => c10::run(ctx),
         "C13" => c13::run(ctx),
+        "C15" => c15::run(ctx),
         "C16" => c16::run(ctx),
         "C18" => c18::run(ctx),
         _ => return false,
@@ -43,6 +45,7 @@ pub fn replay(ctx: &Ctx, id: &str, kind: &str, case: &J) -> Vec<Fail> {
         "C07" => c07::replay(ctx, kind, case),
         "C10" => c10::replay(ctx, kind, case),
         "C13" => c13::replay(ctx, kind, case),
+        "C15" => c15::replay(ctx, kind, case),
         "C16" => c16::replay(ctx, kind, case),
         "C18" => c18::replay(ctx, kind, case),
         _ => vec![Fail::new("harness", format!("no replay for property {}", id))],
